@@ -113,7 +113,7 @@ def Step.readCells : Step → List Nat
   | .store n _ _ => n.cells
   | .load n => n.cells
   | .move a b => a.cells ++ b.cells
-  | .check n _ => n.cells
+  | .check n ok => if ok then [] else n.cells   -- an accepted scratch validation leaves no trace of the name it ran under
   | _ => []
 
 def writeCells (p : List Step) : List Nat := p.flatMap Step.writeCells
